@@ -421,8 +421,29 @@ pub fn c15(args: &[String]) {
         let _ = std::fs::remove_dir_all(&dir2);
         let _ = std::fs::remove_dir_all(&dir);
     }
+    let mut join_blocked = 0usize;
+    let mut join_waits: Vec<u64> = Vec::new();
+    if kind == "mem" {
+        trace::disable();
+        for _ in 0..3 {
+            let inner = MemSource::new(true);
+            inner.st.lock().unwrap().trace_reads = false;
+            inner.put("a", "x", b"v1");
+            let waited = Arc::new(AtomicU64::new(0));
+            let gave_up = Arc::new(AtomicBool::new(false));
+            let cache = AssetCache::with_source(JoinSource { inner, waited_ms: waited.clone(), gave_up: gave_up.clone() });
+            let _ = cache.load::<Leaf<0>>("a");
+            cache.hot_reload();
+            drop(cache);
+            join_waits.push(waited.load(Ordering::SeqCst));
+            if gave_up.load(Ordering::SeqCst) {
+                join_blocked += 1;
+            }
+        }
+        trace::enable();
+    }
     trace::write_ndjson(&out, &all).unwrap();
-    println!("REPORT {}", json!({"kind":kind,"rounds":results,"events":all.len(),"watcher_threads_left":watcher_threads_left,"watcher_threads_dotted":watcher_threads_dotted}));
+    println!("REPORT {}", json!({"kind":kind,"join_source_blocked":join_blocked,"join_source_waits_ms":join_waits,"rounds":results,"events":all.len(),"watcher_threads_left":watcher_threads_left,"watcher_threads_dotted":watcher_threads_dotted}));
 }
 
 // ---------------------------------------------------------------------------
@@ -608,4 +629,49 @@ pub fn c07(args: &[String]) {
     }
     trace::write_ndjson(&out, &proj).unwrap();
     println!("REPORT {}", json!({"events":proj.len(),"torn":torn,"final_rid":crate::front::rid_of(h.last_reload_id()),"writes":writes}));
+}
+
+
+// ---------------------------------------------------------------------------
+// C15: a source that, like a source owning a polling watcher, waits in its destructor until the
+// reloader let go of its event channel. Dropping the cache must stop the reloader BEFORE the
+// source is dropped, or drop(cache) never returns.
+// ---------------------------------------------------------------------------
+pub struct JoinSource {
+    pub inner: MemSource,
+    pub waited_ms: Arc<AtomicU64>,
+    pub gave_up: Arc<AtomicBool>,
+}
+impl assets_manager::source::Source for JoinSource {
+    fn read(&self, id: &str, ext: &str) -> std::io::Result<assets_manager::source::FileContent<'_>> {
+        self.inner.read(id, ext)
+    }
+    fn read_dir(&self, id: &str, f: &mut dyn FnMut(assets_manager::source::DirEntry)) -> std::io::Result<()> {
+        self.inner.read_dir(id, f)
+    }
+    fn exists(&self, entry: assets_manager::source::DirEntry) -> bool {
+        self.inner.exists(entry)
+    }
+    fn make_source(&self) -> Option<Box<dyn assets_manager::source::Source + Send>> {
+        self.inner.make_source()
+    }
+    fn configure_hot_reloading(&self, events: assets_manager::hot_reloading::EventSender) -> Result<(), assets_manager::BoxedError> {
+        self.inner.configure_hot_reloading(events)
+    }
+}
+impl Drop for JoinSource {
+    fn drop(&mut self) {
+        // the only shutdown signal a source gets: its sender reports that nobody listens any more
+        let t0 = std::time::Instant::now();
+        if let Some(tx) = self.inner.sender() {
+            while tx.send_multiple(std::iter::empty::<OwnedDirEntry>().chain(std::iter::once(OwnedDirEntry::File("nobody".into(), "x".into())))).is_ok() {
+                if t0.elapsed() > std::time::Duration::from_secs(3) {
+                    self.gave_up.store(true, Ordering::SeqCst);
+                    break;
+                }
+                std::thread::sleep(std::time::Duration::from_millis(2));
+            }
+        }
+        self.waited_ms.store(t0.elapsed().as_millis() as u64, Ordering::SeqCst);
+    }
 }
